@@ -214,6 +214,7 @@ func Family(name string, tier string) []*Scenario {
 		out = append(out, unboundedRetries(thorough)...)
 		out = append(out, wrappedSkip(thorough)...)
 		out = append(out, errorsValueResults(thorough)...)
+		out = append(out, implicitVertices(thorough)...)
 	case "C14":
 		out = append(out, fourVertexSingleFault(thorough)...)
 		out = append(out, fiveVertexFaults(thorough)...)
@@ -227,6 +228,8 @@ func Family(name string, tier string) []*Scenario {
 		out = append(out, percentIDs(thorough)...)
 		out = append(out, contextWrappingErrors(thorough)...)
 		out = append(out, errorsValueResults(thorough)...)
+		out = append(out, implicitVertices(thorough)...)
+		out = append(out, sentinelWrappingErrors(thorough)...)
 		for n := 1; n <= 3; n++ {
 			for _, es := range AllDAGs(n) {
 				for _, scr := range assignments(n, []string{"ok", "err", "skip"}) {
@@ -273,6 +276,7 @@ func Family(name string, tier string) []*Scenario {
 			}
 		}
 	case "C15":
+		out = append(out, sharedOutputWriter(thorough)...)
 		for n := 2; n <= 4; n++ {
 			var graphs [][][2]int
 			if n <= 3 {
@@ -487,6 +491,8 @@ func Family(name string, tier string) []*Scenario {
 		out = append(out, readdAfterDeps(thorough)...)
 		out = append(out, slotWaitCancel(thorough)...)
 		out = append(out, tickerZero(thorough)...)
+		out = append(out, validateThenRun(thorough)...)
+		out = append(out, failingOutputWriter(thorough)...)
 	case "C16sort":
 		// (c) DepthFirstSort alone on every DAG shape with up to five vertices, and on the same shapes with one
 		// extra edge that closes a cycle; explored over the rotations of its map ranges
@@ -1116,6 +1122,144 @@ func errorsValueResults(thorough bool) []*Scenario {
 					out = append(out, sc)
 				}
 			}
+		}
+	}
+	return out
+}
+
+// sentinelWrappingErrors: a task fails with an error of its own that wraps the exported dag.ErrorTaskSkipped.
+func sentinelWrappingErrors(thorough bool) []*Scenario {
+	var out []*Scenario
+	for n := 1; n <= 3; n++ {
+		for _, es := range AllDAGs(n) {
+			if n == 3 && len(es) != 2 && !thorough {
+				continue
+			}
+			for v := 0; v < n; v++ {
+				scr := make([][]string, n)
+				for i := range scr {
+					scr[i] = []string{"ok"}
+				}
+				scr[v] = []string{"tskip"}
+				if !relevant(n, es, scr) {
+					continue
+				}
+				sc := GraphScenario(n, es, scr, nil, "par")
+				sc.Light = 1
+				out = append(out, sc)
+			}
+		}
+	}
+	return out
+}
+
+// implicitVertices: the TaskMap / README style - no AddTask for tasks that appear in a TaskDependsOn call, the vertices
+// are created by the call that mentions them first; one task skips, fails or all succeed.
+func implicitVertices(thorough bool) []*Scenario {
+	var out []*Scenario
+	for n := 2; n <= 3; n++ {
+		for _, es := range AllDAGs(n) {
+			if len(es) == 0 || (n == 3 && len(es) > 2 && !thorough) {
+				continue
+			}
+			for v := -1; v < n; v++ {
+				for _, how := range []string{"skip", "err"} {
+					if v < 0 && how == "err" {
+						continue
+					}
+					scr := make([][]string, n)
+					for i := range scr {
+						scr[i] = []string{"ok"}
+					}
+					if v >= 0 {
+						scr[v] = []string{how}
+					}
+					if !relevant(n, es, scr) {
+						continue
+					}
+					sc := &Scenario{N: n, Scripts: scr, Mode: "par", NoAdd: true, Light: 1}
+					mentioned := make([]bool, n)
+					for _, e := range es {
+						sc.Hist = append(sc.Hist, Call{"dep", e[0], e[1]})
+						mentioned[e[0]], mentioned[e[1]] = true, true
+					}
+					for i := 0; i < n; i++ {
+						if !mentioned[i] {
+							sc.Hist = append(sc.Hist, Call{"add", i, 0})
+						}
+					}
+					out = append(out, sc)
+				}
+			}
+		}
+	}
+	return out
+}
+
+// failingOutputWriter: output buffering with a writer that takes nothing and always fails; the output is lost, the run goes on.
+func failingOutputWriter(thorough bool) []*Scenario {
+	var out []*Scenario
+	for n := 1; n <= 2; n++ {
+		for _, es := range AllDAGs(n) {
+			for _, mode := range []string{"par", "max1"} {
+				for _, retry := range []bool{false, true} {
+					scr := make([][]string, n)
+					for i := range scr {
+						scr[i] = []string{"ok"}
+					}
+					ret := make([]int, n)
+					if retry {
+						scr[n-1] = []string{"err", "ok"}
+						ret[n-1] = 1
+					}
+					sc := GraphScenario(n, es, scr, ret, mode)
+					sc.Buffer, sc.WriterFails = true, true
+					sc.Light = 1
+					out = append(out, sc)
+				}
+			}
+		}
+	}
+	return out
+}
+
+// sharedOutputWriter: two graphs that both buffer their output and write to one writer (a log file both append to).
+func sharedOutputWriter(thorough bool) []*Scenario {
+	var out []*Scenario
+	for n := 1; n <= 2; n++ {
+		scr := make([][]string, n)
+		for i := range scr {
+			scr[i] = []string{"ok"}
+		}
+		for _, mode2 := range []string{"par", "serial"} {
+			sc := GraphScenario(n, nil, scr, nil, "par")
+			sc.SharedMode = mode2
+			sc.Shared = []int{0}
+			sc.Buffer, sc.SharedWriter = true, true
+			out = append(out, sc)
+		}
+	}
+	return out
+}
+
+// validateThenRun: Validate(nil) called (once, twice) between the construction and Run, on acyclic and cyclic graphs.
+func validateThenRun(thorough bool) []*Scenario {
+	var out []*Scenario
+	for _, edges := range [][]Call{
+		{{"dep", 0, 1}},
+		{{"dep", 0, 1}, {"dep", 1, 0}},
+		{{"dep", 0, 1}, {"dep", 1, 2}, {"dep", 2, 0}},
+		{{"dep", 0, 1}, {"dep", 1, 2}},
+	} {
+		for nv := 1; nv <= 2; nv++ {
+			h := []Call{{"add", 0, 0}, {"add", 1, 0}, {"add", 2, 0}}
+			h = append(h, edges...)
+			for i := 0; i < nv; i++ {
+				h = append(h, Call{"validate", 0, 0})
+			}
+			sc := &Scenario{N: 3, Hist: h, Mode: "par", History: true, Light: 1}
+			sc.Scripts = [][]string{{"ok"}, {"ok"}, {"ok"}}
+			out = append(out, sc)
 		}
 	}
 	return out
